@@ -183,6 +183,13 @@ pub fn gen_session(seed: u64, run: u64, thorough: bool) -> Session {
     }
     let nchanges = rng.range(1, if thorough { 15 } else { 10 });
     for _ in 0..nchanges {
+        if on_disk && rng.chance(1, 5) {
+            // the editor reports a file event for a document it has open (an atomic save by
+            // rename, a checkout): the document is the editor's, the event must not touch it
+            let d = rng.below(ndocs);
+            ops.push(PlannedOp::tagged(Op::Watched { changes: vec![(doc_uri(d), *rng.pick(&[1u32, 2, 2]))] }, "watched.open_document"));
+            ops.push(PlannedOp::new(Op::ProbeText { uri: doc_uri(d) }));
+        }
         let d = rng.below(ndocs);
         let mut edits = Vec::new();
         let mut tags: Vec<String> = Vec::new();
